@@ -57,7 +57,7 @@ def _cases(args):
     true = hashlib.new(algo, data).hexdigest()
     sps = spellings(algo) if TIER == "thorough" else spellings(algo)[:3]
     cks = {"lower": true, "UPPER": true.upper(), "wrong": _flip(true), "other": hashlib.new(algo, other).hexdigest(),
-           "absent": None}
+           "wrong-nonascii": true[:-1] + "\uff10", "absent": None}  # last digit replaced by a full-width zero
     sizes = {"absent": None, "correct": len(data), "wrong+1": len(data) + 1}
     if TIER == "thorough":
         sizes["wrong-1"] = len(data) - 1
